@@ -289,10 +289,10 @@ def worker(task):
 # ---------------------------------------------------------------- decorator / parameter recomposition
 
 DECO_PATHS = ['Embed.alias', 'a.b.c', 'deco']
-DECO_ARGS_Q = ['1', '"s"', '"a,b"', 'f(1, 2)', 'k=v', 'k="a=b, c"', 'l[0]', '{"a": 1, "b": 2}', 'T<A, B>(x)', "'q'", '"(x"']
+DECO_ARGS_Q = ['1', '"s"', '"a,b"', 'f(1, 2)', 'k=v', 'k="a=b, c"', 'l[0]', '{"a": 1, "b": 2}', 'T<A, B>(x)', "'q'", '"(x"', '"a,  b"', '"p\tq"']
 PARAM_TYPES = ['int', 'const int&', 'int*', 'std::map<std::string, int>', 'const T<A, B>&', 'std::function<int(int, int)>', 'std::vector<std::map<int, A>>*']
 PARAM_NAMES = ['n', 'dsn']
-PARAM_DEFAULTS = [None, '0', '{}', 'f(1, "a,b")', '"a=b"', 'A<B, C>(1)', '{1, 2}', "'='", '"(x"', 'std::map<int, int>{{1, 2}}']
+PARAM_DEFAULTS = [None, '0', '{}', 'f(1, "a,b")', '"a=b"', 'A<B, C>(1)', '{1, 2}', "'='", '"(x"', 'std::map<int, int>{{1, 2}}', '"a,  b"', '"p\tq"', '{"x  =  y", "p\tq"}', "' '"]
 
 
 def deco_param_cases(ctx, viol, stats):
@@ -317,12 +317,27 @@ def deco_param_cases(ctx, viol, stats):
                         else:
                             exp_args[str(i)] = a
                     n += 1
-                    try:
-                        h = DecoratorHelper(text)
-                        got = (h.path, dict(h.args), h.join_args)
-                    except Exception as e:  # noqa
-                        got = f'raises:{type(e).__name__}'
                     want = (path, exp_args, sep.join(args))
+                    # every order of first reading the three lazily computed properties of a fresh helper
+                    got = want
+                    for order in itertools.permutations(('path', 'args', 'join_args')):
+                        try:
+                            h = DecoratorHelper(text)
+                            vals = {}
+                            for prop in order:
+                                vals[prop] = getattr(h, prop)
+                            again = (h.path, dict(h.args), h.join_args)
+                            cur = (vals['path'], dict(vals['args']), vals['join_args'])
+                            if cur == want and again != want:
+                                cur = again
+                        except Exception as e:  # noqa
+                            cur = f'raises:{type(e).__name__}'
+                        if cur != want:
+                            got = cur
+                            if order != ('path', 'args', 'join_args'):
+                                viol.append((['decorator', 'property-order', '-'.join(order)], f'DecoratorHelper({text!r}) read in the order {order} -> {cur!r}, expected {want!r}', {'law': 'decorator', 'text': text, 'expected': [path, exp_args, sep.join(args)], 'order': list(order)}))
+                                got = want
+                            break
                     if got != want:
                         cls = sorted({special_class(a) for a in args} - {'plain'})
                         viol.append((['decorator', 'raises' if isinstance(got, str) else 'wrong-args', 'atoms=' + ','.join(cls or ['plain'])],
@@ -419,6 +434,18 @@ def replay(ctx, data):
     elif law == 'decorator':
         from rogw.tranp.view.helper.decorator import DecoratorHelper
         h = DecoratorHelper(data['text'])
+        for prop in data.get('order', []):
+            try:
+                getattr(h, prop)
+            except Exception:  # noqa
+                pass
+        try:
+            ok = [h.path, dict(h.args), h.join_args] == data['expected']
+        except Exception:  # noqa
+            ok = False
+        if not ok:
+            ctx.violation(['decorator', 'replay'], f'{data["text"]!r} read in the order {data.get("order")}: does not give {data["expected"]!r}', data)
+            return
         if [h.path, dict(h.args), h.join_args] != data['expected']:
             ctx.violation(['decorator', 'replay'], f'{data["text"]!r} -> {(h.path, h.args, h.join_args)!r}', data)
     elif law == 'param':
